@@ -7,7 +7,9 @@ out of the picture.  Here the seam is moved one layer down, to the file object:
 * ``SimFile`` is a text file as the operating system would give it to the process: ``write`` only
   fills a buffer, ``flush`` delivers the buffer to the device (the event log and, if attached, the
   terminal emulator).  What was written but not flushed is *not visible* - the simulator's
-  "late / lost write".  ``encoding`` is whatever the scenario says.
+  "late / lost write".  With ``write_through`` every ``write`` call reaches the device by itself, as
+  on a console stream.  ``on_call`` runs at every ``write`` call of the file object: for threaded
+  code this is where another thread may be scheduled.  ``encoding`` is whatever the scenario says.
 * ``RealStreamOutput`` is clikit's own ``StreamOutputStream`` over a ``SimFile`` (only the tty probe is
   answered by the scenario, there is no file descriptor).
 * ``CountingStreamInput`` is clikit's own ``StreamInputStream`` over an ``io.StringIO`` holding the
@@ -22,13 +24,16 @@ from .streams import AskedForever, Runaway
 
 
 class SimFile(object):
-    def __init__(self, name, log, screen=None, encoding="utf-8", on_write=None, max_calls=50000):
+    def __init__(self, name, log, screen=None, encoding="utf-8", on_write=None, max_calls=50000,
+                 write_through=False, on_call=None):
         self.name = name
         self.log = log
         self.screen = screen
         self.encoding = encoding
         self.on_write = on_write
         self.after_write = None
+        self.write_through = write_through   # like a console stream: every write() reaches the device at once
+        self.on_call = on_call               # called at every write() of the file object (a scheduling point)
         self.closed = False
         self.buffer = ""
         self.writes = []     # (seq, data) as delivered to the device
@@ -43,12 +48,19 @@ class SimFile(object):
             raise ValueError("I/O operation on closed file.")
         if self.encoding != "utf-8":
             string.encode(self.encoding)  # UnicodeEncodeError like a strict text stream
+        if self.on_call is not None:
+            self.on_call(self, string)
         self.buffer += string
+        if self.write_through:
+            self._deliver()
         return len(string)
 
     def flush(self):
         if self.closed:
             raise ValueError("I/O operation on closed file.")
+        self._deliver()
+
+    def _deliver(self):
         if not self.buffer:
             return
         data, self.buffer = self.buffer, ""
@@ -116,3 +128,47 @@ class CountingStreamInput(StreamInputStream):
 
 def string_source(lines):
     return io.StringIO("".join(lines))
+
+
+def append_to_source(source, lines):
+    """More typed lines arrive on the same stream; the read position stays where it is."""
+    pos = source.tell()
+    source.seek(0, io.SEEK_END)
+    source.write("".join(lines))
+    source.seek(pos)
+
+
+def unread_lines(source):
+    """What a reader continuing on this stream has still to see."""
+    pos = source.tell()
+    rest = source.read()
+    source.seek(pos)
+    return rest.splitlines(True)
+
+
+def counting(base):
+    """A subclass of one of clikit's input stream classes that counts reads and enforces the budget
+    of reads after end of input (``base`` does all the reading)."""
+
+    class Counting(base):
+        def dsim_init(self, log, eof_budget):
+            self.log = log
+            self.reads = 0
+            self.reads_after_eof = 0
+            self.eof_budget = eof_budget
+            return self
+
+        def read_line(self, length=None):
+            self.reads += 1
+            out = base.read_line(self, length)
+            if not out:
+                self.reads_after_eof += 1
+                self.log.add("read_eof", self.reads_after_eof)
+                if self.reads_after_eof > self.eof_budget:
+                    self.log.add("asked_forever")
+                    raise AskedForever()
+            else:
+                self.log.add("read", out if isinstance(out, str) else out.decode("utf-8", "replace"))
+            return out
+
+    return Counting
